@@ -281,6 +281,10 @@ def main():
             lines.append(f"scan cli_key {s}")
             py.append(r)
             h.case()
+            if s in ("A,B", "_,A,Z") and r != "error":
+                want_keys = s.replace("_", " ").split(",")
+                if list(ld.wcs_key or []) != want_keys if not isinstance(ld.wcs_key, str) else True:
+                    h.violation("cli:key", f"--wcs-key {s!r} gives the loader wcs_key = {ld.wcs_key!r}, the user listed {want_keys}", input=s)
         # end-to-end through CLI-style loader and tile_fits for one list selection
         uid += 1
         pa, pb = os.path.join(d, "ta.fits"), os.path.join(d, "tb.fits")
@@ -306,6 +310,31 @@ def main():
                             input={"history": ["load([a,b])", "load([a,b], hdu_index=[2,1])", "load([a,b])"]})
         except Exception as e:
             h.violation("history:crash", f"repeated loads of the same files raised {type(e).__name__}: {e}", input="history")
+        # an abandoned pass over a collection (the caller breaks out of `images()` / `descriptions()` early, as the common-grid test
+        # of the tiler does) leaves the collection as it was: a later full pass still pairs file i with list entry i
+        try:
+            pc = os.path.join(d, "tc.fits")
+            uid += 1
+            dc = make_file(pc, rng, "EII", uid + 2)
+            ref = observe(collection.load([pa, pb, pc], hdu_index=[1, 2, 1]), [pa, pb, pc])
+            for nbreak in (1, 2):
+                coll3 = collection.load([pa, pb, pc], hdu_index=[1, 2, 1])
+                for which in ("images", "descriptions"):
+                    with warnings.catch_warnings():
+                        warnings.simplefilter("ignore")
+                        for kk, _item in enumerate(getattr(coll3, which)()):
+                            if kk + 1 >= nbreak:
+                                break
+                    o4 = observe(coll3, [pa, pb, pc])
+                    h.case(("history", "abandoned-pass", which, nbreak))
+                    h.count("history", "abandoned-pass")
+                    t_ref = [x["tag"] for x in ref["img"]] if not ref["error"] else ref["error"]
+                    t_got = [x["tag"] for x in o4["img"]] if not o4["error"] else o4["error"]
+                    if t_got != t_ref or o4["export"] != ref["export"] or [x["shape"] for x in o4["desc"]] != [x["shape"] for x in ref["desc"]]:
+                        h.violation("history:abandoned", f"load([a, b, c], hdu_index=[1, 2, 1]): after a pass over {which}() abandoned at input #{nbreak} the same collection reads {t_got} / exports {o4['export'] and [i for _p, i in o4['export']]}, "
+                                    f"a fresh one reads {t_ref} / exports {[i for _p, i in ref['export']]}", input={"history": [f"{which}() abandoned after {nbreak}", "full pass"], "hdu_index": [1, 2, 1]})
+        except Exception as e:
+            h.violation("history:crash", f"abandoned pass over a collection raised {type(e).__name__}: {e}", input="abandoned-pass")
         # the `toasty view` command line: what reaches the tiler is the user's list of files, positionally, with the per-file
         # selections — including the same file named twice to pick two of its HDUs (the tiler itself is replaced by a recorder)
         try:
